@@ -1,6 +1,6 @@
 """sr_policy/binding_sid.py
 
-SR Policy Binding SID Sub-TLV (type 13, RFC 9256 Section 2.4.2).
+SR Policy Binding SID Sub-TLV (type 13, RFC 9830 Section 2.4.2).
 
 Wire format:
  +-+-+-+-+-+-+-+-+
@@ -8,11 +8,12 @@ Wire format:
  +-+-+-+-+-+-+-+-+
  | Reserved (1 octet) |
  +-+-+-+-+-+-+-+-+
- | BSID (0 or 4 octets) |
+ | BSID (0, 4 or 16 octets) |
  +-+-+-+-+-+-+-+-+
 
 When no BSID is present (explicit null), value is 2 bytes (flags + reserved only).
 When an MPLS label is present, value is 6 bytes: flags(1) + reserved(1) + label_entry(4).
+When an SRv6 SID is present, value is 18 bytes: flags(1) + reserved(1) + sid(16).
 
 MPLS Label Stack Entry (4 bytes):
   bits [31:12]: Label (top 20 bits)
@@ -23,6 +24,7 @@ MPLS Label Stack Entry (4 bytes):
 
 from __future__ import annotations
 
+import socket
 from struct import pack, unpack
 from typing import ClassVar
 
@@ -30,34 +32,43 @@ from exabgp.bgp.message.update.attribute.tunnel_encap.tlv import SubTLV
 from exabgp.util.types import Buffer
 
 _BSID_FLAG_SPECIFIED = 0x10  # B flag: BSID is explicitly specified
+_BSID_VALUE_SRV6_SIZE = 18  # flags(1) + reserved(1) + sid(16)
 
 
 @SubTLV.register(13)
 class BindingSIDSubTLV(SubTLV):
-    """SR Policy Binding SID Sub-TLV (MPLS)."""
+    """SR Policy Binding SID Sub-TLV (MPLS label, or SRv6 SID when received as such)."""
 
     SUBTYPE: ClassVar[int] = 13
 
-    def __init__(self, label: int | None = None, flags: int = 0) -> None:
+    def __init__(self, label: int | None = None, flags: int = 0, sid: str | None = None) -> None:
         """Args:
         label: MPLS label value (top 20 bits of label stack entry), None = no BSID.
         flags: Sub-TLV flags byte.
+        sid: SRv6 SID as IPv6 address string (the 18-octet form), None = label or no BSID.
         """
         self.label = label
         self.flags = flags
+        self.sid = sid
 
     def pack_value(self) -> bytes:
+        if self.sid is not None:
+            return pack('!BB', self.flags, 0) + socket.inet_pton(socket.AF_INET6, self.sid)
         if self.label is None:
             return pack('!BB', self.flags, 0)
         label_entry = (self.label << 12) | 0x100  # S=1, TTL=0
         return pack('!BBL', self.flags | _BSID_FLAG_SPECIFIED, 0, label_entry)
 
     def json(self) -> str:
+        if self.sid is not None:
+            return f'"binding-sid": {{"type": "srv6", "sid": "{self.sid}"}}'
         if self.label is None:
             return '"binding-sid": null'
         return f'"binding-sid": {{"type": "mpls", "label": {self.label}}}'
 
     def __str__(self) -> str:
+        if self.sid is not None:
+            return f'binding-sid srv6 {self.sid}'
         if self.label is None:
             return 'binding-sid null'
         return f'binding-sid mpls {self.label}'
@@ -67,6 +78,10 @@ class BindingSIDSubTLV(SubTLV):
         if len(data) < 2:
             return cls()
         flags = data[0]
+        if len(data) == _BSID_VALUE_SRV6_SIZE:
+            # RFC 9830 2.4.2: a length of 18 is a 16-octet SRv6 SID. Its first four octets were
+            # read as a label entry, and what was sent back was a 6-octet sub-TLV.
+            return cls(flags=flags, sid=socket.inet_ntop(socket.AF_INET6, bytes(data[2:18])))
         if len(data) >= 6:
             label_entry: int = unpack('!L', data[2:6])[0]
             label = label_entry >> 12
